@@ -158,9 +158,6 @@ example : tracked (run cfg0 hist0) ("10.0.0.1", "idMin") ∧
     (run cfg0 hist0).timeouts[("10.0.0.1", "idMin")]? = some ⟨0, false⟩ ∧ 300 - 0 ≤ cfg0.unusedT := by
   simp [run, hist0, step, register, cfg0, init, tracked]
 
-namespace CJ.Props.C08
-open CJ.Registry
-
 /-! ### the timeout record in terms of the history: creation time is fixed at first tracking, the
 used flag is raised only by a connection (`markActive`) — so "age" in `sweep_exact` is the time since
 the registration was first tracked in its current lifetime, and duplicates do not refresh it. -/
